@@ -14,8 +14,8 @@ _cache = {}
 
 def analyse(ctx, cfg):
     F = ctx.facts(cfg)
-    if id(F) in _cache:
-        return _cache[id(F)]
+    if F.path in _cache:
+        return _cache[F.path]
     P = mirflow.Program(F)
     names = [n for n, r in P.runs.items() if r.body["span"]["f"] in C06_FILES or n in C06_EXTRA_FNS]
     for rnd in range(3):
@@ -50,7 +50,7 @@ def analyse(ctx, cfg):
                 if s_.req and not s_.proved:
                     s_.req = None
     out = {n: P.runs[n] for n in names}
-    _cache[id(F)] = (P, out)
+    _cache[F.path] = (P, out)
     return P, out
 
 
